@@ -652,6 +652,9 @@ where
                     // get blocked or finished.
                     while this.write_buf.len() < *this.h1_write_buffer_size {
                         match body.as_mut().poll_next(cx) {
+                            // an empty chunk would be encoded as the end of a chunked body
+                            Poll::Ready(Some(Ok(item))) if item.is_empty() => {}
+
                             Poll::Ready(Some(Ok(item))) => {
                                 this.codec
                                     .encode(Message::Chunk(Some(item)), this.write_buf)?;
@@ -710,6 +713,9 @@ where
                     // get blocked or finished.
                     while this.write_buf.len() < *this.h1_write_buffer_size {
                         match body.as_mut().poll_next(cx) {
+                            // an empty chunk would be encoded as the end of a chunked body
+                            Poll::Ready(Some(Ok(item))) if item.is_empty() => {}
+
                             Poll::Ready(Some(Ok(item))) => {
                                 this.codec
                                     .encode(Message::Chunk(Some(item)), this.write_buf)?;
